@@ -96,7 +96,20 @@ def check(ctx: Ctx) -> str:
     gf = repo.func("loaders:ModuleLoader.get_module_filename")
     gk = repo.func("loaders:ModuleLoader.get_template_key")
     ctx.check(ast.unparse(astq.returns(gf.node)[0].value) == "ModuleLoader.get_template_key(name) + '.py'", "key:filename", "loaders:ModuleLoader.get_module_filename", "file name from the key", "the module file name must be get_template_key(name) + '.py'", gf.loc())
-    ctx.check(ast.unparse(astq.returns(gk.node)[0].value) == "'tmpl_' + sha1(name.encode('utf-8')).hexdigest()", "key:hash", "loaders:ModuleLoader.get_template_key", "key function", "the template key must be tmpl_<sha1 of the name>", gk.loc())
+    def _parts(e: ast.AST) -> list[str]:
+        # 'a' + x, f'a{x}' and 'a{}'.format(x) are the same text: literal pieces and expressions in order
+        if isinstance(e, ast.BinOp) and isinstance(e.op, ast.Add):
+            return _parts(e.left) + _parts(e.right)
+        if isinstance(e, ast.JoinedStr):
+            out_: list[str] = []
+            for v_ in e.values:
+                out_ += [repr(v_.value)] if isinstance(v_, ast.Constant) else ([ast.unparse(v_.value)] if isinstance(v_, ast.FormattedValue) and v_.conversion == -1 and v_.format_spec is None else ["?"])
+            return out_
+        if isinstance(e, ast.Constant) and isinstance(e.value, str):
+            return [repr(e.value)]
+        return [ast.unparse(e)]
+
+    ctx.check(_parts(astq.returns(gk.nnode)[0].value) == ["'tmpl_'", "sha1(name.encode('utf-8')).hexdigest()"], "key:hash", "loaders:ModuleLoader.get_template_key", "key function", "the template key must be tmpl_<sha1 of the name>", gk.loc())
     ld = repo.func("loaders:ModuleLoader.load")
     s = ast.unparse(ld.node)
     imps = [c for c in astq.calls(ld.node) if astq.callee(c) == "__import__" and c.args]
@@ -108,7 +121,9 @@ def check(ctx: Ctx) -> str:
     ctx.rule("R3", "Template._from_namespace installs the environment into the module namespace and reads exactly the keys the generator emits")
     fn = repo.func("environment:Template._from_namespace")
     s = ast.unparse(fn.node)
-    ctx.check("namespace['environment'] = environment" in s and "namespace['__jinja_template__'] = t" in s, "namespace:environment", "environment:Template._from_namespace", "environment installed", "the loading environment must be stored in the module namespace (deferred-init modules read it from there)", fn.loc())
+    made = [a for a in ast.walk(fn.node) if isinstance(a, (ast.Assign, ast.AnnAssign)) and a.value is not None and ast.unparse(a.value) == "object.__new__(cls)"]
+    tv = ast.unparse(made[0].targets[0] if isinstance(made[0], ast.Assign) else made[0].target) if len(made) == 1 else "t"
+    ctx.check("namespace['environment'] = environment" in s and f"namespace['__jinja_template__'] = {tv}" in s, "namespace:environment", "environment:Template._from_namespace", "environment installed", "the loading environment must be stored in the module namespace (deferred-init modules read it from there)", fn.loc())
     read = sorted({n_.slice.value for n_ in ast.walk(fn.node) if isinstance(n_, ast.Subscript) and ast.unparse(n_.value) == "namespace" and isinstance(n_.ctx, ast.Load) and isinstance(n_.slice, ast.Constant)})
     vt = ast.unparse(repo.func("compiler:CodeGenerator.visit_Template").node)
     emitted = {"name": "name = {self.name!r}" in vt, "blocks": "blocks = {{" in vt, "root": "self.func('root')" in vt, "debug_info": "debug_info = {" in vt, "__file__": True}
